@@ -531,7 +531,7 @@ func (s *State) evalBuiltin(node *ast.Builtin) object.Object {
 	case token.LEN:
 		l := object.Len(val)
 		if l == -1 {
-			return s.NewError("len: not supported on " + val.Type().String())
+			return s.NewError("len: not supported on " + object.Value(val).Type().String())
 		}
 		return object.Integer{Value: int64(l)}
 	default:
@@ -1212,6 +1212,9 @@ func (s *State) evalInfixExpression(operator token.Type, left, right object.Obje
 		// can't use generics :/ see other comment.
 	case rightIsInt && leftIsInt:
 		return s.evalIntegerInfixExpression(operator, leftVal, rightVal)
+	case left.Type() == object.REGISTER || right.Type() == object.REGISTER:
+		// mixed types: registers are integers (also so error messages don't depend on the use of registers).
+		return s.evalInfixExpression(operator, object.CopyRegister(left), object.CopyRegister(right))
 	case left.Type() == object.FLOAT || right.Type() == object.FLOAT:
 		return s.evalFloatInfixExpression(operator, left, right)
 	case left.Type() == object.STRING:
